@@ -13,21 +13,33 @@ macro_rules! stubs {
     )* };
 }
 
-/// Serialise `v` after one arbitrary byte already in the buffer, check `value_size`, append two
-/// arbitrary bytes ("what follows"), prove the discriminant byte equals `disc` and store the same
-/// constant back (so CBMC's symbolic execution sees a concrete discriminant and does not explore
-/// the String/Vec arms of the decoder), then run the real decoder at offset 1.
-fn ser_then_de(v: &Value<'_>, disc: u8) -> (Option<Value<'static>>, usize, usize) {
+/// proves `buf.len() == n`, then stores the same constant back as the length (no assumption made):
+/// CBMC's symbolic execution then works with a concrete Vec length instead of a merged symbolic one.
+fn pin_len(buf: &mut Vec<u8>, n: usize) {
+    assert!(buf.len() == n);
+    // SAFETY: n == buf.len() was just asserted
+    unsafe { buf.set_len(n) };
+}
+/// proves `buf[i] == b`, then stores the same constant back
+fn pin_byte(buf: &mut Vec<u8>, i: usize, b: u8) {
+    assert!(buf[i] == b);
+    buf[i] = b;
+}
+
+/// Serialise `v` after one arbitrary byte already in the buffer; prove bytes written == `size` ==
+/// value_size(v) ("the computed size equals the bytes written"); append two arbitrary bytes ("what
+/// follows"); prove the discriminant byte equals `disc`; then run the real decoder at offset 1.
+/// `pin_*` keep the Vec length and the discriminant concrete for CBMC without assuming anything.
+fn ser_then_de(v: &Value<'_>, disc: u8, size: usize) -> (Option<Value<'static>>, usize, usize) {
     let mut buf: Vec<u8> = Vec::with_capacity(64);
     buf.push(kani::any());
     RowSerde::serialize_value_into(v, &mut buf);
-    let n = buf.len();
-    // "the computed size equals the bytes written"
-    assert!(n - 1 == RowSerde::value_size(v));
+    assert!(RowSerde::value_size(v) == size);
+    pin_len(&mut buf, 1 + size);
+    let n = 1 + size;
     buf.push(kani::any());
     buf.push(kani::any());
-    assert!(buf[1] == disc);
-    buf[1] = disc;
+    pin_byte(&mut buf, 1, disc);
     let mut off = 1usize;
     let r = vs::is_ok_forget(RowSerde::deserialize_value(&buf, &mut off));
     (r, off, n)
@@ -43,11 +55,11 @@ fn c33_int_roundtrip() {
     let i: i64 = kani::any();
     let v = Value::Int(i);
     let (r, off, n) = if i < 0 {
-        ser_then_de(&v, discriminant::NEG_INT)
+        ser_then_de(&v, discriminant::NEG_INT, 9)
     } else if i == 0 {
-        ser_then_de(&v, discriminant::ZERO)
+        ser_then_de(&v, discriminant::ZERO, 1)
     } else {
-        ser_then_de(&v, discriminant::POS_INT)
+        ser_then_de(&v, discriminant::POS_INT, 9)
     };
     match r {
         Some(Value::Int(j)) => assert!(j == i && off == n),
@@ -65,19 +77,19 @@ fn c33_float_roundtrip_nonzero() {
     kani::assume(f != 0.0);
     let v = Value::Float(f);
     if f.is_nan() {
-        let (r, off, n) = ser_then_de(&v, discriminant::NAN);
+        let (r, off, n) = ser_then_de(&v, discriminant::NAN, 1);
         match r { Some(Value::Float(g)) => assert!(g.is_nan() && off == n), _ => assert!(false) }
     } else if f == f64::NEG_INFINITY {
-        let (r, off, n) = ser_then_de(&v, discriminant::NEG_INFINITY);
+        let (r, off, n) = ser_then_de(&v, discriminant::NEG_INFINITY, 1);
         match r { Some(Value::Float(g)) => assert!(g == f && off == n), _ => assert!(false) }
     } else if f == f64::INFINITY {
-        let (r, off, n) = ser_then_de(&v, discriminant::POS_INFINITY);
+        let (r, off, n) = ser_then_de(&v, discriminant::POS_INFINITY, 1);
         match r { Some(Value::Float(g)) => assert!(g == f && off == n), _ => assert!(false) }
     } else if f < 0.0 {
-        let (r, off, n) = ser_then_de(&v, discriminant::NEG_FLOAT);
+        let (r, off, n) = ser_then_de(&v, discriminant::NEG_FLOAT, 9);
         match r { Some(Value::Float(g)) => assert!(g.to_bits() == f.to_bits() && off == n), _ => assert!(false) }
     } else {
-        let (r, off, n) = ser_then_de(&v, discriminant::POS_FLOAT);
+        let (r, off, n) = ser_then_de(&v, discriminant::POS_FLOAT, 9);
         match r { Some(Value::Float(g)) => assert!(g.to_bits() == f.to_bits() && off == n), _ => assert!(false) }
     }
 }
@@ -125,47 +137,47 @@ fn c33_float_zero_keeps_type() {
 fn c33_fixed_variants_roundtrip() {
     let w: usize = kani::any(); // witness index into array payloads
     {
-        let (r, off, n) = ser_then_de(&Value::Null, discriminant::NULL);
+        let (r, off, n) = ser_then_de(&Value::Null, discriminant::NULL, 1);
         match r { Some(Value::Null) => assert!(off == n), _ => assert!(false) }
     }
     {
         let u: [u8; 16] = kani::any();
-        let (r, off, n) = ser_then_de(&Value::Uuid(u), discriminant::UUID);
+        let (r, off, n) = ser_then_de(&Value::Uuid(u), discriminant::UUID, 17);
         match r { Some(Value::Uuid(x)) => assert!(x[w % 16] == u[w % 16] && off == n), _ => assert!(false) }
     }
     {
         let m: [u8; 6] = kani::any();
-        let (r, off, n) = ser_then_de(&Value::MacAddr(m), discriminant::MACADDR);
+        let (r, off, n) = ser_then_de(&Value::MacAddr(m), discriminant::MACADDR, 7);
         match r { Some(Value::MacAddr(x)) => assert!(x[w % 6] == m[w % 6] && off == n), _ => assert!(false) }
     }
     {
         let a: [u8; 4] = kani::any();
-        let (r, off, n) = ser_then_de(&Value::Inet4(a), discriminant::INET4);
+        let (r, off, n) = ser_then_de(&Value::Inet4(a), discriminant::INET4, 5);
         match r { Some(Value::Inet4(x)) => assert!(x[w % 4] == a[w % 4] && off == n), _ => assert!(false) }
     }
     {
         let a: [u8; 16] = kani::any();
-        let (r, off, n) = ser_then_de(&Value::Inet6(a), discriminant::INET6);
+        let (r, off, n) = ser_then_de(&Value::Inet6(a), discriminant::INET6, 17);
         match r { Some(Value::Inet6(x)) => assert!(x[w % 16] == a[w % 16] && off == n), _ => assert!(false) }
     }
     {
         let (mi, os): (i64, i32) = (kani::any(), kani::any());
-        let (r, off, n) = ser_then_de(&Value::TimestampTz { micros: mi, offset_secs: os }, discriminant::TIMESTAMPTZ);
+        let (r, off, n) = ser_then_de(&Value::TimestampTz { micros: mi, offset_secs: os }, discriminant::TIMESTAMPTZ, 13);
         match r { Some(Value::TimestampTz { micros, offset_secs }) => assert!(micros == mi && offset_secs == os && off == n), _ => assert!(false) }
     }
     {
         let (mi, d, mo): (i64, i32, i32) = (kani::any(), kani::any(), kani::any());
-        let (r, off, n) = ser_then_de(&Value::Interval { micros: mi, days: d, months: mo }, discriminant::INTERVAL);
+        let (r, off, n) = ser_then_de(&Value::Interval { micros: mi, days: d, months: mo }, discriminant::INTERVAL, 17);
         match r { Some(Value::Interval { micros, days, months }) => assert!(micros == mi && days == d && months == mo && off == n), _ => assert!(false) }
     }
     {
         let (t, o): (u16, u16) = (kani::any(), kani::any());
-        let (r, off, n) = ser_then_de(&Value::Enum { type_id: t, ordinal: o }, discriminant::ENUM);
+        let (r, off, n) = ser_then_de(&Value::Enum { type_id: t, ordinal: o }, discriminant::ENUM, 5);
         match r { Some(Value::Enum { type_id, ordinal }) => assert!(type_id == t && ordinal == o && off == n), _ => assert!(false) }
     }
     {
         let (dg, sc): (i128, i16) = (kani::any(), kani::any());
-        let (r, off, n) = ser_then_de(&Value::Decimal { digits: dg, scale: sc }, discriminant::DECIMAL);
+        let (r, off, n) = ser_then_de(&Value::Decimal { digits: dg, scale: sc }, discriminant::DECIMAL, 19);
         match r { Some(Value::Decimal { digits, scale }) => assert!(digits == dg && scale == sc && off == n), _ => assert!(false) }
     }
 }
@@ -177,11 +189,11 @@ fn c33_fixed_variants_roundtrip() {
 fn c33_geo_variants_roundtrip() {
     let (a, b, c, d): (f64, f64, f64, f64) = (kani::any(), kani::any(), kani::any(), kani::any());
     {
-        let (r, off, n) = ser_then_de(&Value::Point { x: a, y: b }, discriminant::POINT);
+        let (r, off, n) = ser_then_de(&Value::Point { x: a, y: b }, discriminant::POINT, 17);
         match r { Some(Value::Point { x, y }) => assert!(x.to_bits() == a.to_bits() && y.to_bits() == b.to_bits() && off == n), _ => assert!(false) }
     }
     {
-        let (r, off, n) = ser_then_de(&Value::GeoBox { low: (a, b), high: (c, d) }, discriminant::GEOBOX);
+        let (r, off, n) = ser_then_de(&Value::GeoBox { low: (a, b), high: (c, d) }, discriminant::GEOBOX, 33);
         match r {
             Some(Value::GeoBox { low, high }) => assert!(low.0.to_bits() == a.to_bits() && low.1.to_bits() == b.to_bits()
                 && high.0.to_bits() == c.to_bits() && high.1.to_bits() == d.to_bits() && off == n),
@@ -189,7 +201,7 @@ fn c33_geo_variants_roundtrip() {
         }
     }
     {
-        let (r, off, n) = ser_then_de(&Value::Circle { center: (a, b), radius: c }, discriminant::CIRCLE);
+        let (r, off, n) = ser_then_de(&Value::Circle { center: (a, b), radius: c }, discriminant::CIRCLE, 25);
         match r {
             Some(Value::Circle { center, radius }) => assert!(center.0.to_bits() == a.to_bits() && center.1.to_bits() == b.to_bits()
                 && radius.to_bits() == c.to_bits() && off == n),
@@ -198,100 +210,179 @@ fn c33_geo_variants_roundtrip() {
     }
 }
 
-//@ props=C33 kind=bounded bound="payload length <= 2 bytes / 2 vector elements"
-/// Blob, Jsonb, ToastPointer (<= 2 bytes), Vector (<= 2 f32): round-trip with the same variant, same length,
-/// same element at a witness index; consumes exactly value_size bytes
+}
+
+/// var-len helper: like ser_then_de for a u32-length-prefixed variant with *concrete* payload length `l`
+/// (`elem` = bytes per element); additionally pins the 4 length bytes (proved equal first).
+fn ser_then_de_var(v: &Value<'_>, disc: u8, l: usize, elem: usize) -> (Option<Value<'static>>, usize, usize) {
+    let size = 1 + 4 + l * elem;
+    let mut buf: Vec<u8> = Vec::with_capacity(64);
+    buf.push(kani::any());
+    RowSerde::serialize_value_into(v, &mut buf);
+    assert!(RowSerde::value_size(v) == size);
+    pin_len(&mut buf, 1 + size);
+    let n = 1 + size;
+    buf.push(kani::any());
+    buf.push(kani::any());
+    pin_byte(&mut buf, 1, disc);
+    let lb = (l as u32).to_be_bytes();
+    pin_byte(&mut buf, 2, lb[0]);
+    pin_byte(&mut buf, 3, lb[1]);
+    pin_byte(&mut buf, 4, lb[2]);
+    pin_byte(&mut buf, 5, lb[3]);
+    let mut off = 1usize;
+    let r = vs::is_ok_forget(RowSerde::deserialize_value(&buf, &mut off));
+    (r, off, n)
+}
+
+stubs! {
+//@ props=C33 kind=bounded bound="payload length 0, 1, 2 bytes" timeout=900
+/// Blob with payloads of length 0..=2 (all byte values): round-trip with the same variant, same length,
+/// same bytes; consumes exactly value_size bytes == bytes written
 #[kani::proof]
 #[kani::unwind(4)]
-fn c33_varlen_roundtrip_len2() {
+fn c33_blob_roundtrip_len2() {
     let bytes: [u8; 2] = kani::any();
-    let l: usize = kani::any();
-    kani::assume(l <= 2);
-    let w: usize = kani::any();
-    kani::assume(w < l);
-    {
+    let mut l = 0usize;
+    while l <= 2 {
         let v = Value::Blob(Cow::Borrowed(&bytes[..l]));
-        let (r, off, n) = ser_then_de(&v, discriminant::BLOB);
-        match r { Some(Value::Blob(x)) => { assert!(x.len() == l && off == n); assert!(x[w] == bytes[w]); core::mem::forget(x); } _ => assert!(false) }
-    }
-    {
-        let v = Value::Jsonb(Cow::Borrowed(&bytes[..l]));
-        let (r, off, n) = ser_then_de(&v, discriminant::JSONB);
-        match r { Some(Value::Jsonb(x)) => { assert!(x.len() == l && off == n); assert!(x[w] == bytes[w]); core::mem::forget(x); } _ => assert!(false) }
-    }
-    {
-        let v = Value::ToastPointer(Cow::Borrowed(&bytes[..l]));
-        let (r, off, n) = ser_then_de(&v, discriminant::TOAST_POINTER);
-        match r { Some(Value::ToastPointer(x)) => { assert!(x.len() == l && off == n); assert!(x[w] == bytes[w]); core::mem::forget(x); } _ => assert!(false) }
-    }
-    {
-        let fl: [f32; 2] = kani::any();
-        let v = Value::Vector(Cow::Borrowed(&fl[..l]));
-        let (r, off, n) = ser_then_de(&v, discriminant::VECTOR);
-        match r { Some(Value::Vector(x)) => { assert!(x.len() == l && off == n); assert!(x[w].to_bits() == fl[w].to_bits()); core::mem::forget(x); } _ => assert!(false) }
+        let (r, off, n) = ser_then_de_var(&v, discriminant::BLOB, l, 1);
+        match r { Some(Value::Blob(x)) => { assert!(x.len() == l && off == n); if l > 0 { assert!(x[0] == bytes[0] && x[l - 1] == bytes[l - 1]); } core::mem::forget(x); } _ => assert!(false) }
+        l += 1;
     }
 }
 
-//@ props=C33 kind=bounded bound="ASCII text of length <= 2"
-/// Text (<= 2 ASCII bytes): round-trips as Text with the same bytes; consumes exactly value_size bytes
+//@ props=C33 kind=bounded bound="payload length 0, 1, 2 bytes" timeout=900
+/// Jsonb, same contract as Blob
 #[kani::proof]
 #[kani::unwind(4)]
+fn c33_jsonb_roundtrip_len2() {
+    let bytes: [u8; 2] = kani::any();
+    let mut l = 0usize;
+    while l <= 2 {
+        let v = Value::Jsonb(Cow::Borrowed(&bytes[..l]));
+        let (r, off, n) = ser_then_de_var(&v, discriminant::JSONB, l, 1);
+        match r { Some(Value::Jsonb(x)) => { assert!(x.len() == l && off == n); if l > 0 { assert!(x[0] == bytes[0] && x[l - 1] == bytes[l - 1]); } core::mem::forget(x); } _ => assert!(false) }
+        l += 1;
+    }
+}
+
+//@ props=C33 kind=bounded bound="payload length 0, 1, 2 bytes" timeout=900
+/// ToastPointer, same contract as Blob
+#[kani::proof]
+#[kani::unwind(4)]
+fn c33_toast_roundtrip_len2() {
+    let bytes: [u8; 2] = kani::any();
+    let mut l = 0usize;
+    while l <= 2 {
+        let v = Value::ToastPointer(Cow::Borrowed(&bytes[..l]));
+        let (r, off, n) = ser_then_de_var(&v, discriminant::TOAST_POINTER, l, 1);
+        match r { Some(Value::ToastPointer(x)) => { assert!(x.len() == l && off == n); if l > 0 { assert!(x[0] == bytes[0] && x[l - 1] == bytes[l - 1]); } core::mem::forget(x); } _ => assert!(false) }
+        l += 1;
+    }
+}
+
+//@ props=C33 kind=bounded bound="vector of 0, 1, 2 f32 elements"
+/// Vector with 0..=2 elements (all f32 bit patterns): round-trips bit-exactly; consumes exactly value_size bytes
+#[kani::proof]
+#[kani::unwind(4)]
+fn c33_vector_roundtrip_len2() {
+    let fl: [f32; 2] = kani::any();
+    let mut l = 0usize;
+    while l <= 2 {
+        let v = Value::Vector(Cow::Borrowed(&fl[..l]));
+        let (r, off, n) = ser_then_de_var(&v, discriminant::VECTOR, l, 4);
+        match r {
+            Some(Value::Vector(x)) => {
+                assert!(x.len() == l && off == n);
+                if l > 0 { assert!(x[0].to_bits() == fl[0].to_bits() && x[l - 1].to_bits() == fl[l - 1].to_bits()); }
+                core::mem::forget(x);
+            }
+            _ => assert!(false),
+        }
+        l += 1;
+    }
+}
+
+//@ props=C33 kind=bounded bound="ASCII text of length 0, 1, 2" tier=thorough
+/// Text (0..=2 ASCII bytes): round-trips as Text with the same bytes; consumes exactly value_size bytes
+#[kani::proof]
+#[kani::unwind(6)]
 fn c33_text_roundtrip_len2() {
     let bytes: [u8; 2] = kani::any();
     kani::assume(bytes[0] < 0x80 && bytes[1] < 0x80);
-    let l: usize = kani::any();
-    kani::assume(l <= 2);
-    let w: usize = kani::any();
-    kani::assume(w < l);
-    // SAFETY-free construction: ASCII is valid UTF-8; from_utf8 checks it anyway
-    let s: &str = match core::str::from_utf8(&bytes[..l]) { Ok(s) => s, Err(_) => { assert!(false); "" } };
-    let v = Value::Text(Cow::Borrowed(s));
-    let (r, off, n) = ser_then_de(&v, discriminant::TEXT);
-    match r { Some(Value::Text(x)) => { assert!(x.len() == l && off == n); assert!(x.as_bytes()[w] == bytes[w]); core::mem::forget(x); } _ => assert!(false) }
+    let mut l = 0usize;
+    while l <= 2 {
+        let s: &str = match core::str::from_utf8(&bytes[..l]) { Ok(s) => s, Err(_) => { assert!(false); "" } };
+        let v = Value::Text(Cow::Borrowed(s));
+        let (r, off, n) = ser_then_de_var(&v, discriminant::TEXT, l, 1);
+        match r { Some(Value::Text(x)) => { assert!(x.len() == l && off == n); if l > 0 { assert!(x.as_bytes()[0] == bytes[0] && x.as_bytes()[l - 1] == bytes[l - 1]); } core::mem::forget(x); } _ => assert!(false) }
+        l += 1;
+    }
 }
 
-//@ props=C33 kind=bounded bound="rows of 0..=2 columns (Int / Null cells); two rows per buffer"
-/// row framing: a row is [u16 count] ++ values; deserialize_row_into returns the same cells and advances
-/// the cursor by exactly row_size(row) — including the empty row — so consecutive rows decode in order
-#[kani::proof]
-#[kani::unwind(4)]
-fn c33_row_sequence() {
-    let cols1: usize = kani::any();
-    let cols2: usize = kani::any();
-    kani::assume(cols1 <= 2 && cols2 <= 2);
+}
+
+/// row framing for concrete column counts (c1, c2): two rows in one buffer decode in order; the cursor
+/// advances by exactly row_size(row) per row (including the empty row); cells are positive Ints / Null
+fn row_seq(c1: usize, c2: usize) {
     let (a, b, c): (i64, i64, i64) = (kani::any(), kani::any(), kani::any());
-    kani::assume(a > 0 && b > 0 && c > 0); // one discriminant class: keeps the decoder's match concrete
+    kani::assume(a > 0 && b > 0 && c > 0);
     let row1 = [Value::Int(a), Value::Int(b)];
     let row2 = [Value::Int(c), Value::Null];
     let mut buf: Vec<u8> = Vec::with_capacity(64);
-    RowSerde::serialize_row_into(&row1[..cols1], &mut buf);
-    let n1 = buf.len();
-    assert!(n1 == RowSerde::row_size(&row1[..cols1]));
-    RowSerde::serialize_row_into(&row2[..cols2], &mut buf);
-    let n2 = buf.len();
-    assert!(n2 - n1 == RowSerde::row_size(&row2[..cols2]));
-    // pin discriminants (proved equal first)
-    if cols1 >= 1 { assert!(buf[2] == discriminant::POS_INT); buf[2] = discriminant::POS_INT; }
-    if cols1 >= 2 { assert!(buf[11] == discriminant::POS_INT); buf[11] = discriminant::POS_INT; }
-    if cols2 >= 1 { assert!(buf[n1 + 2] == discriminant::POS_INT); }
-    if cols2 >= 2 { assert!(buf[n1 + 11] == discriminant::NULL); }
+    RowSerde::serialize_row_into(&row1[..c1], &mut buf);
+    let n1 = 2 + 9 * c1;
+    assert!(RowSerde::row_size(&row1[..c1]) == n1);
+    pin_len(&mut buf, n1);
+    RowSerde::serialize_row_into(&row2[..c2], &mut buf);
+    let n2 = n1 + 2 + (if c2 >= 1 { 9 } else { 0 }) + (if c2 >= 2 { 1 } else { 0 });
+    assert!(RowSerde::row_size(&row2[..c2]) == n2 - n1);
+    pin_len(&mut buf, n2);
+    // pin the column counts and discriminants (each proved equal first)
+    pin_byte(&mut buf, 0, 0);
+    pin_byte(&mut buf, 1, c1 as u8);
+    if c1 >= 1 { pin_byte(&mut buf, 2, discriminant::POS_INT); }
+    if c1 >= 2 { pin_byte(&mut buf, 11, discriminant::POS_INT); }
+    pin_byte(&mut buf, n1, 0);
+    pin_byte(&mut buf, n1 + 1, c2 as u8);
+    if c2 >= 1 { pin_byte(&mut buf, n1 + 2, discriminant::POS_INT); }
+    if c2 >= 2 { pin_byte(&mut buf, n1 + 11, discriminant::NULL); }
     let mut out: SmallVec<[Value<'static>; 16]> = SmallVec::new();
     let mut off = 0usize;
     let ok1 = vs::is_ok_forget(RowSerde::deserialize_row_into(&buf, &mut off, &mut out)).is_some();
     assert!(ok1);
     assert!(off == n1);
-    assert!(out.len() == cols1);
-    if cols1 >= 1 { match &out[0] { Value::Int(x) => assert!(*x == a), _ => assert!(false) } }
-    if cols1 >= 2 { match &out[1] { Value::Int(x) => assert!(*x == b), _ => assert!(false) } }
+    assert!(out.len() == c1);
+    if c1 >= 1 { match &out[0] { Value::Int(x) => assert!(*x == a), _ => assert!(false) } }
+    if c1 >= 2 { match &out[1] { Value::Int(x) => assert!(*x == b), _ => assert!(false) } }
     let ok2 = vs::is_ok_forget(RowSerde::deserialize_row_into(&buf, &mut off, &mut out)).is_some();
     assert!(ok2);
     assert!(off == n2);
-    assert!(out.len() == cols2);
-    if cols2 >= 1 { match &out[0] { Value::Int(x) => assert!(*x == c), _ => assert!(false) } }
-    if cols2 >= 2 { match &out[1] { Value::Null => {}, _ => assert!(false) } }
+    assert!(out.len() == c2);
+    if c2 >= 1 { match &out[0] { Value::Int(x) => assert!(*x == c), _ => assert!(false) } }
+    if c2 >= 2 { match &out[1] { Value::Null => {}, _ => assert!(false) } }
     core::mem::forget(out);
-    kani::cover!(cols1 == 0 && cols2 == 2);
 }
+
+stubs! {
+//@ props=C33 kind=bounded bound="two rows per buffer with (0,2) columns" timeout=900
+/// row sequence: empty row then a 2-column row
+#[kani::proof]
+#[kani::unwind(4)]
+fn c33_row_sequence_0_2() { row_seq(0, 2); }
+
+//@ props=C33 kind=bounded bound="two rows per buffer with (2,1) columns" timeout=900
+/// row sequence: 2-column row then a 1-column row
+#[kani::proof]
+#[kani::unwind(4)]
+fn c33_row_sequence_2_1() { row_seq(2, 1); }
+
+//@ props=C33 kind=bounded bound="two rows per buffer with (1,0) columns"
+/// row sequence: 1-column row then an empty row
+#[kani::proof]
+#[kani::unwind(4)]
+fn c33_row_sequence_1_0() { row_seq(1, 0); }
 
 //@ props=C33,C23 kind=proof
 /// decoder safety: deserialize_value on arbitrary 20 bytes with a *fixed-width* discriminant (or an
